@@ -392,6 +392,7 @@ func runC10(r *core.Run) {
 		return
 	}
 	r.Set("instrumentation", os.Getenv("VERIF_INSTR"))
+	noteDegraded(r)
 	var cases []c10Case
 	fragBound := 2
 	if !r.Quick() {
